@@ -68,7 +68,7 @@ def lazy_checks():
     import signac
     out = []
     with project_scratch() as p:
-        for sp in ({}, {"a": {}}, {"a": []}, {"a": None}, {"a": 0}, {"a": ""}, {"a": False}):
+        for sp in ({}, {"a": {}}, {"a": []}, {"a": None}, {"a": 0}, {"a": ""}, {"a": False}, {"a": {"n": [1, {"x": 2}]}, "l": [[1], 2]}):
             before = sorted(os.listdir(p.workspace))
             j = p.open_job(sp)
             try:
@@ -84,8 +84,11 @@ def lazy_checks():
                 out.append(("lazy:" + json.dumps(sp), f"open_job({sp}) / reading its state point wrote to the workspace"))
             j.init()
             q = signac.Project(p.path).open_job(id=j.id)
-            if json.loads(json.dumps(q.statepoint())) != sp or json.loads(json.dumps(dict(q.cached_statepoint))) != sp:
-                out.append(("reopen:" + json.dumps(sp), f"job {sp} reopened by id in a fresh session reports {q.statepoint()}"))
+            try:
+                if json.loads(json.dumps(q.statepoint())) != sp or json.loads(json.dumps(dict(q.cached_statepoint))) != sp:
+                    out.append(("reopen:" + json.dumps(sp), f"job {sp} reopened by id in a fresh session reports {q.statepoint()}"))
+            except Exception as e:
+                out.append(("reopen:" + json.dumps(sp), f"job {sp} reopened by id in a fresh session: reading statepoint / cached_statepoint as plain JSON data raised {type(e).__name__}: {e}"))
     out += aliasing_checks()
     return out
 
